@@ -458,8 +458,30 @@ def size_agreement(ctx, P, rule):
                     if any(any(nd.get('op') == 'ref' and nd.get('name') == g.params[i_]['name'] for nd in walk(c2.args[0])) for c2 in g.calls(STRLEN)):
                         mine.append(c)
         ok = bool(mine) and all(any(ev_dominates(m, sd) or _may_precede(tw, m, sd) for m in mine) for sd in sends)
+        # a measuring helper stores the measured length on every path that accepts a text payload
+        why_helper = None
+        for c in mine:
+            g = P.functions.get(c.callee)
+            if g is None or g.file != tw.file or c.callee in STRLEN:
+                continue
+            outs = [ev for ev in g.stores() if strip_casts(ev.store_parts()[0]).get('op') == 'un' and strip_casts(ev.store_parts()[0]).get('o') == '*'
+                    and strip_casts(strip_casts(ev.store_parts()[0])['k'][0]).get('rk') == 'param']
+            text_consts = {P.enum_consts.get('JLS_STORAGE_TYPE_STRING'), P.enum_consts.get('JLS_STORAGE_TYPE_JSON')}
+            for b in g.blocks.values():
+                cc = strip_casts(b.cond) if b.cond is not None else None
+                if cc is None or cc.get('op') != 'bin' or cc['o'] != '==' or const_of(cc['k'][1]) not in text_consts:
+                    continue
+                for i_, (s_, lab) in enumerate(b.succs):
+                    if lab != 'T':
+                        continue
+                    wq = find_path(g, (b, i_), lambda e2, facts: 'stop' if e2 in outs else
+                                   ('target' if (e2.k == 'ret' and e2.e is not None and const_of(strip_casts(e2.e)) == 0) else None), refine=False)
+                    if wq is not None:
+                        why_helper = '%s() accepts a text payload on a path that keeps the caller\'s data_size (%s)' % (g.name, wq.render()[:120])
+        if why_helper:
+            ok = False
         ctx.ob(rule, ok, tw.name, 'payload length for text storage types', sends[0].where(),
-               'length taken from the text before the copy, as %s does' % sync.name if ok else
+               'length taken from the text before the copy, as %s does' % sync.name if ok else (why_helper + ': the queue then holds data_size bytes without the terminator and the writer thread measures past them') if why_helper else
                '%s stores strlen(data) + 1 bytes for STRING/JSON and ignores data_size (documented as 0 / ignored), but %s copies data_size bytes into the queue: the writer thread then measures and stores whatever follows in the ring' % (sync.name, tw.name))
     ctx.floor('threaded entries whose synchronous sibling measures text', n, 2)
 
